@@ -42,7 +42,9 @@ def install(python_module=None):
     orig_execute = py.BasicBlock.execute
 
     def execute(self, *args, **kwargs):
-        args = [_scalar(a) for a in args]
+        # numpy scalars, not builtin floats: under numpy 1.x the lambdified code divides size-1 ARRAYS (0/0 is nan with a warning,
+        # never ZeroDivisionError), and np.float64 keeps exactly that arithmetic
+        args = [np.float64(_scalar(a)) if isinstance(a, np.ndarray) and a.size == 1 else a for a in args]
         for v in orig_execute(self, *args, **kwargs):
             yield v
 
